@@ -1008,6 +1008,9 @@ where
             // that foca forgets the down member (`Config::remove_down_after`)
             if message == Message::TurnUndead {
                 self.handle_self_update(Incarnation::default(), State::Down, &mut runtime)?;
+                // We may have renewed our identity, which leaves us
+                // disconnected: get back to work if we know active members
+                self.adjust_connection_state(&mut runtime);
             }
 
             if self.config.notify_down_members {
@@ -1134,7 +1137,11 @@ where
                 #[cfg(feature = "tracing")]
                 tracing::debug!("The cluster thinks we're down");
 
-                self.handle_self_update(Incarnation::default(), State::Down, runtime)?;
+                self.handle_self_update(Incarnation::default(), State::Down, &mut runtime)?;
+                // Same as when learning about it via an update: renewing
+                // our identity leaves us disconnected, so reconnect right
+                // away if there are active members
+                self.adjust_connection_state(runtime);
             }
             // Nothing to do. These messages do not expect any reply
             Message::Gossip | Message::Feed | Message::Broadcast => {}
